@@ -161,8 +161,7 @@ static int find_slot(const void* p, uint32_t& idx) {
     uintptr_t b = g_cls[c].base, e = b + g_cls[c].count * (g_cls[c].np + 1) * PG + PG;
     if (a >= b && a < e) {
       size_t stride = (g_cls[c].np + 1) * PG;
-      idx = (uint32_t)((a - b) / stride);
-      if (idx >= g_cls[c].count) idx = (uint32_t)g_cls[c].count - 1;
+      idx = (uint32_t)((a - b) / stride);   // idx == count: the guard page after the last slot
       return c;
     }
   }
@@ -192,6 +191,7 @@ void classify_addr(const void* addr, char* out, size_t outlen) {
         snprintf(out, outlen, "guard_page(class %d slot %u)", c, idx);
       return;
     }
+    if (idx >= g_cls[c].count) { snprintf(out, outlen, "guard_page(class %d end)", c); return; }
     const Slot& s = g_slots[c][idx];
     if (s.state == S_FREED) snprintf(out, outlen, "freed_block(id=%u size=%zu prov=%d freed, protected)", s.id, s.size, s.prov);
     else snprintf(out, outlen, "arena_data(class %d slot %u state %d)", c, idx, s.state);
@@ -360,6 +360,7 @@ static void* do_alloc(Provider p, size_t n, Place want, const char* like, size_t
 static Slot* lookup(const void* ptr, int& c, uint32_t& idx, bool& interior) {
   interior = false;
   c = find_slot(ptr, idx);
+  if (c >= 0 && idx >= g_cls[c].count) return nullptr;
   if (c >= 0) {
     Slot& s = g_slots[c][idx];
     if (s.ptr == ptr) return &s;
